@@ -26,6 +26,12 @@ def run(run, tier, seed, kinds=KINDS, pid=PID):
         res = explore.bfs(hc.make_expand(variant, kinds), depth, seed=seed,
                           bound={'variant': name, 'depth': depth})
         run.add_part('bfs:' + name, res)
+    if tier == 'thorough':
+        # pure depth (no merging): every history, so nothing rests on the merge argument up to this depth
+        for name, depth in (('client', 5), ('late_registry', 6)):
+            res = explore.bfs(hc.make_expand(hc.VARIANTS[name], kinds), depth, seed=seed, merge=False,
+                              bound={'variant': name, 'depth': depth, 'merged': False})
+            run.add_part('bfs_unmerged:' + name, res)
     # deep chain: generation letters past z / zz
     variant = hc.VARIANTS['client']
     hist = hc.deep_chain(variant, *chain)
